@@ -1292,12 +1292,22 @@ func shrink(c *core.Ctx, spec gens.JPExpr, t *tree, repr string, o opT, f *findi
 	return spec, t, f
 }
 
-func signature(spec gens.JPExpr, t *tree, repr string, o opT, f *finding) string {
+// filterBlamed: see C11; the case with a wildcard in place of the trailing
+// $-rooted filter fails in the same way = the filter is not at fault.
+func filterBlamed(c *core.Ctx, spec gens.JPExpr, t *tree, repr string, o opT, f *finding) bool {
+	if len(spec) <= 2 || !spec[len(spec)-1].RootFilter() {
+		return false
+	}
+	alt := append(append(gens.JPExpr{}, spec[:len(spec)-1]...), gens.JPSimple("wild"))
+	return fails(c, alt, t, repr, o, f.kind) == nil
+}
+
+func signature(spec gens.JPExpr, t *tree, repr string, o opT, f *finding, filterBlamed bool) string {
 	name := o.label()
 	if o.Must {
 		name = "Must" + name
 	}
-	if last := spec[len(spec)-1]; len(spec) > 2 && last.RootFilter() {
+	if last := spec[len(spec)-1]; len(spec) > 2 && last.RootFilter() && filterBlamed {
 		return core.Sig(name, "filter-with-$", "pos=last", repr, "-", f.kind)
 	}
 	f1 := spec[1]
@@ -1331,7 +1341,7 @@ func report(c *core.Ctx, spec gens.JPExpr, t *tree, repr string, o opT, f *findi
 	if o.Must {
 		size += 2
 	}
-	c.Fail(signature(s, st, repr, o, g), cs, size, g.exp, g.obs+"   ["+o.String()+" "+x.String()+" on "+repr+" form of "+st.show()+"]")
+	c.Fail(signature(s, st, repr, o, g, filterBlamed(c, s, st, repr, o, g)), cs, size, g.exp, g.obs+"   ["+o.String()+" "+x.String()+" on "+repr+" form of "+st.show()+"]")
 }
 
 // ------------------------------------------------------------------ driver
@@ -1476,7 +1486,7 @@ func replay(c *core.Ctx, raw json.RawMessage) {
 	creating := cs.Op.base() == "Set" && creation(cs.Path, t.simple)
 	for i := 0; i < 3; i++ {
 		if f := runOp(c, cs.Path, x, t, sel, creating, cs.Repr, cs.Op); f != nil && (cs.Kind == "" || f.kind == cs.Kind) {
-			c.Fail(signature(cs.Path, t, cs.Repr, cs.Op, f), cs, len(cs.Path), f.exp, f.obs)
+			c.Fail(signature(cs.Path, t, cs.Repr, cs.Op, f, filterBlamed(c, cs.Path, t, cs.Repr, cs.Op, f)), cs, len(cs.Path), f.exp, f.obs)
 			return
 		}
 	}
